@@ -189,9 +189,23 @@ def _r1(ctx, f):
               "not every constructed worker is started", f.qname, "all started")
     thr = ctx.repo.cls("KernelDG").class_attrs.get("INSTRUCTION_THRESHOLD")
     br = [n2 for n2 in ast.walk(f.node) if isinstance(n2, ast.If) and "INSTRUCTION_THRESHOLD" in U(n2.test)]
-    ctx.check(thr is not None and bool(br) and U(br[0].test) == "%s >= self.INSTRUCTION_THRESHOLD" % n, "R1",
+    # the worker construction is reached exactly when n >= INSTRUCTION_THRESHOLD (whatever the spelling / branch order)
+    rel = None
+    for e, pol in C.facts_at(p):
+        if "INSTRUCTION_THRESHOLD" not in U(e):
+            continue
+        if isinstance(e, ast.Compare) and len(e.ops) == 1:
+            l, r, op = U(e.left), U(e.comparators[0]), type(e.ops[0]).__name__
+            if r == n:          # T op n  ==  n flipped-op T
+                l, r, op = r, l, {"Lt": "Gt", "LtE": "GtE", "Gt": "Lt", "GtE": "LtE"}.get(op, op)
+            if l == n and r.endswith("INSTRUCTION_THRESHOLD"):
+                if not pol:
+                    op = {"Lt": "GtE", "LtE": "Gt", "Gt": "LtE", "GtE": "Lt"}.get(op, "?")
+                rel = op
+    ctx.judge(thr is not None and rel == "GtE", rel is not None, "R1",
               "parallel search for n >= INSTRUCTION_THRESHOLD (%s)" % (U(thr) if thr is not None else "?"), f.where(),
-              "threshold test changed", f.qname, "threshold")
+              "the multi-process search is used when n %s INSTRUCTION_THRESHOLD, not when n >= INSTRUCTION_THRESHOLD" % {
+                  "Gt": ">", "Lt": "<", "LtE": "<=", "GtE": ">="}.get(rel, "?"), f.qname, "threshold")
 
 
 def reuse_r1(ctx, rule, why):
